@@ -69,7 +69,7 @@ Consume(n) == /\ valid
 ConsumeAtMost(n) ==
     /\ valid
     /\ LET rest == Used - offset
-           k == Min(n, rest)
+           k == MinOf(n, rest)
        IN IF rest > 0
           THEN /\ offset' = offset + k /\ UNCHANGED <<valid, size, filled>>
                /\ ev' = Ev("consume_at_most", <<n>>,
@@ -126,7 +126,7 @@ ConsumeFailsIffTooFew == [][ev'.op = "consume" => (Refused(ev') <=> ev'.a[1] > U
 AtMostReturnsWhatIsThere ==
     [][ev'.op = "consume_at_most" =>
           /\ (Refused(ev') <=> Used = offset)
-          /\ (~Refused(ev') => rc(ev') = Min(ev'.a[1], Used - offset) /\ Len(Returned(ev')) = rc(ev'))]_<<vars, ev>>
+          /\ (~Refused(ev') => rc(ev') = MinOf(ev'.a[1], Used - offset) /\ Len(Returned(ev')) = rc(ev'))]_<<vars, ev>>
 RewindKeepsUnread ==
     [][ev'.op = "rewind" /\ ~Refused(ev') =>
           filled' = Unread /\ offset' = 0 /\ size' - Len(filled') = size - Len(Unread)]_<<vars, ev>>
